@@ -230,7 +230,12 @@ def _monte_carlo(ck, repo, nf):
     rp = nf.poly(rets[0].ast.value, sc, rets[0].id)
     ck.need(rp.elems is not None, f"{q}: body must return the loop state tuple")
     if len(rp.elems) != 3:
-        inbody = any(".add(1)" in e.canon() for e in rp.elems)
+        def advances_state(e):
+            m_ = nf.meta.get(e.single_atom() or "")
+            if not m_ or "at" not in m_ or m_["at"]["op"] != "add" or not m_.get("args") or m_["args"][0].canon() != "1":
+                return False
+            return m_["at"]["base"].canon().startswith(f"{st}[")     # the updated array is a component of the loop state
+        inbody = any(advances_state(e) for e in rp.elems)
         if not inbody:
             ck.ob("R3-monte-carlo", q, "body:n'", False, f"loop state has {len(rp.elems)} components, none of them a visit count advanced by one",
                   "the visit count is not advanced inside the backward loop: every step must divide by the number of visits *so far* (running mean), not by a count computed elsewhere", loc(mi, body))
